@@ -989,31 +989,70 @@ func runZeroOff(c *Ctx) {
 		}
 		visit2(r)
 	}
-	// session TTL
-	if cr := p.Func("session.(*Store).Create"); cr != nil {
-		info := cr.Info()
-		ttlSpec := &PassSpec{Vias: []Via{{Cond: func(f *FuncInfo, e ast.Expr) (string, bool, bool) {
-			be, ok := ast.Unparen(e).(*ast.BinaryExpr)
-			if !ok || be.Op != token.GTR {
-				return "", false, false
-			}
-			if sel, ok := ast.Unparen(be.X).(*ast.SelectorExpr); ok && sel.Sel.Name == "ttl" {
-				return "ttl>0", true, true
-			}
-			return "", false, false
-		}}}}
+	// session TTL: wherever the expiry is computed from the TTL
+	{
 		found := false
-		cr.CFG().Calls(func(r NodeRef, call *ast.CallExpr) {
-			if calleeIs(info, call, "time", "Time.Add") && strings.Contains(types.ExprString(call), "ttl") {
-				found = true
-				c.Check(ttlSpec.Passed(cr, r, "ttl>0"), "zero-off/session-ttl/create", call.Pos(), "expiry computed only under ttl > 0", "session expiry is computed from the TTL without a ttl > 0 guard: --session-timeout 0 would expire sessions immediately")
+		for _, cr := range p.FuncsIn("internal/session") {
+			info := cr.Info()
+			ttlSpec := &PassSpec{Vias: []Via{{Cond: func(f *FuncInfo, e ast.Expr) (string, bool, bool) {
+				be, ok := ast.Unparen(e).(*ast.BinaryExpr)
+				if !ok || be.Op != token.GTR {
+					return "", false, false
+				}
+				if sel, ok := ast.Unparen(be.X).(*ast.SelectorExpr); ok && sel.Sel.Name == "ttl" {
+					return "ttl>0", true, true
+				}
+				return "", false, false
+			}}}}
+			cr.CFG().Calls(func(r NodeRef, call *ast.CallExpr) {
+				if calleeIs(info, call, "time", "Time.Add") && strings.Contains(types.ExprString(call), "ttl") {
+					found = true
+					c.Check(ttlSpec.Passed(cr, r, "ttl>0"), "zero-off/session-ttl/"+cr.Name, call.Pos(), "expiry computed only under ttl > 0", "session expiry is computed from the TTL without a ttl > 0 guard: --session-timeout 0 would expire sessions immediately")
+				}
+			})
+			// a count limit passed as a parameter: rejection only under limit > 0
+			var params = map[types.Object]bool{}
+			for _, fld := range cr.Type.Params.List {
+				for _, nm := range fld.Names {
+					if o := info.Defs[nm]; o != nil {
+						if b, ok := o.Type().Underlying().(*types.Basic); ok && b.Info()&types.IsInteger != 0 {
+							params[o] = true
+						}
+					}
+				}
 			}
-		})
-		if !found {
-			c.Unknown("zero-off/session-ttl/create", cr.Pos(), "cannot find the expiry computation now.Add(ttl)")
+			for _, b := range cr.CFG().Blocks {
+				cond, _, _, ok := CondEdges(b)
+				if !ok {
+					continue
+				}
+				var limitParam types.Object
+				ast.Inspect(cond, func(n ast.Node) bool {
+					if be, ok := n.(*ast.BinaryExpr); ok && (be.Op == token.GEQ || be.Op == token.GTR) && strings.HasPrefix(types.ExprString(be.X), "len(") {
+						if o := ObjOf(info, be.Y); o != nil && params[o] {
+							limitParam = o
+						}
+					}
+					return true
+				})
+				if limitParam == nil {
+					continue
+				}
+				guarded := false
+				for _, a := range Implied(cond, true) {
+					if be, ok := a.E.(*ast.BinaryExpr); ok && be.Op == token.GTR && a.Val && ObjOf(info, be.X) == limitParam {
+						if z, ok := constInt(info, be.Y); ok && z == 0 {
+							guarded = true
+						}
+					}
+				}
+				c.Check(guarded, "zero-off/"+cr.Name+"/"+limitParam.Name(), cond.Pos(), "count limit enforced only when "+limitParam.Name()+" > 0",
+					"the count limit "+limitParam.Name()+" is enforced without a "+limitParam.Name()+" > 0 guard: a limit of 0 would refuse every request instead of disabling the limit")
+			}
 		}
-	} else {
-		c.MissingAnchor("session.(*Store).Create")
+		if !found {
+			c.Unknown("zero-off/session-ttl/create", token.NoPos, "cannot find the expiry computation now.Add(ttl) in internal/session")
+		}
 	}
 	if g := p.Func("session.(*Store).GetByJoinCode"); g != nil {
 		info := g.Info()
